@@ -6,6 +6,16 @@ from . import universe as U
 def main():
     m = U.make_mesh(U.spec("Grid1D", (3,), ("I",)))
     assert int(m.dims[0]) == 3
+    # the generated manufactured-solution module is committed; if the tooling venv with sympy is
+    # present, verify that it is what the generator produces (informational, never fatal)
+    import os, shutil, subprocess
+    if shutil.which("python3-vt"):
+        try:
+            r = subprocess.run(["python3-vt", os.path.join(env.VERIF_DIR, "tools", "gen_mms.py"), "--check"],
+                               capture_output=True, text=True, timeout=300)
+            print("gen_mms --check:", r.stdout.strip() or r.stderr.strip()[-200:])
+        except Exception as e:  # noqa: BLE001
+            print("gen_mms --check skipped:", e)
     print("fvmc ok: pyfvtool from", env.pf.__file__, "nproc", env.NPROC)
     return 0
 
